@@ -78,6 +78,12 @@ CLAIMED["C17"] = (
     "Trusted: numpy (searchsorted, repeat ...) in the E-class parts, lowering + runtime for the KX part, z3. Outside: arrays longer than 5 atoms, neighbour tables with > 2 slots. Known finding: recursion depth of find_connected (SIGSEGV on a 200000-atom chain).",
     "DESIGN.md §4 C17")
 
+CLAIMED["C11"] = (
+    "solver-driven case split over traces generated from column types (validity by construction) on the real alignment / CIGAR / FASTA code and the compiled align_multiple, against column-by-column recomputation and an independently built CIGAR text",
+    "Bounded model checking (E-class: the z3 variables select column types, clip lengths, offsets, writer options and input sequences; every combination within the bound is a path). Every trace of up to 4 (5) columns over 2 sequences and 3 (4) over 3 sequences through gapped strings, code/symbol matrices, slicing, gap removal, terminal-gap detection, identity and score helpers; every pairwise trace x clipping x offset x all 16 CIGAR writer option combinations through write/read; FASTA alignment round trip with several gap characters; align_multiple on all tuples of an 8-sequence menu.",
+    "Trusted: numpy, the recomputation oracles in obligations/sx_c11.py, z3. Everything under check is executed concretely on each path (class E): no part of C11's code is reasoned about symbolically - the property is decided by exhaustive solver-driven enumeration within the bound. Outside: traces longer than 5 columns, multiple.pyx internals. Known finding: degenerate distance in align_multiple.",
+    "DESIGN.md §4 C11")
+
 NOT_APPLICABLE = {
     "C15": "float results of numpy/LAPACK (linalg solves, trigonometry, argmin over float images): no integer/string logic in front of the C boundary that a solver could reason about; an abstraction over the reals would verify a model of numpy, not the code (DESIGN §6)",
     "C16": "optimality/properness come from np.linalg.svd/det (LAPACK behind FFI) on float32 data; no encodable source; z3 terms cannot pass astype(float32) (DESIGN §6)",
